@@ -1,5 +1,324 @@
-//! Verification hook ops for module `ansi` (see mod.rs for the protocol).
+//! Verification hook ops for module `ansi` (see mod.rs for the protocol): the ANSI element
+//! iterator and its consumers (C08), OSC 8 hyperlink formatting (C19).
+//!
+//! Style encoding on the wire: `<8 flags 0/1: bold dimmed italic underline blink reverse hidden
+//! strikethrough>,<fg>,<bg>`; colour = `_` (none) | `n<0-7>` (Black..White) | `f<n>` (Fixed) |
+//! `r<r>.<g>.<b>`.
+use unicode_width::UnicodeWidthStr;
 
-pub fn handle(op: &str, _args: &[&str]) -> Result<String, String> {
-    Err(format!("unknown op: ansi.{op}"))
+use std::cell::RefCell;
+
+use super::{hex, num, unhex};
+use crate::ansi;
+use crate::config::Config;
+use crate::style::{self, Style};
+
+thread_local! {
+    static ENV_CONFIG: RefCell<Option<&'static Config>> = const { RefCell::new(None) };
+}
+
+/// The Config used by the hyperlink ops: the one made by `ansi.cfg_env` (real environment: cwd,
+/// GIT_PREFIX, hostname) if any, else the driver's current one.
+fn config() -> &'static Config {
+    ENV_CONFIG.with(|c| *c.borrow()).unwrap_or_else(super::config)
+}
+
+fn make_env_config(args: &[String]) -> &'static Config {
+    let mut all: Vec<String> = vec!["delta".into(), "--no-gitconfig".into()];
+    all.extend(args.iter().cloned());
+    let env = crate::env::DeltaEnv::init();
+    let opt = crate::cli::Opt::from_iter_and_git_config(&env, all, None);
+    Box::leak(Box::new(Config::from(opt)))
+}
+
+fn enc_colour(c: Option<ansi_term::Color>) -> String {
+    use ansi_term::Color::*;
+    match c {
+        None => "_".into(),
+        Some(Black) => "n0".into(),
+        Some(Red) => "n1".into(),
+        Some(Green) => "n2".into(),
+        Some(Yellow) => "n3".into(),
+        Some(Blue) => "n4".into(),
+        Some(Purple) => "n5".into(),
+        Some(Cyan) => "n6".into(),
+        Some(White) => "n7".into(),
+        Some(Fixed(n)) => format!("f{n}"),
+        Some(RGB(r, g, b)) => format!("r{r}.{g}.{b}"),
+    }
+}
+
+fn dec_colour(s: &str) -> Result<Option<ansi_term::Color>, String> {
+    use ansi_term::Color::*;
+    let named = [Black, Red, Green, Yellow, Blue, Purple, Cyan, White];
+    if s == "_" {
+        return Ok(None);
+    }
+    let (t, rest) = s.split_at(1);
+    match t {
+        "n" => {
+            let k = num(rest)?;
+            named.get(k).copied().map(Some).ok_or_else(|| format!("bad named colour {s}"))
+        }
+        "f" => Ok(Some(Fixed(rest.parse::<u8>().map_err(|e| e.to_string())?))),
+        "r" => {
+            let v: Result<Vec<u8>, _> = rest.split('.').map(|x| x.parse::<u8>()).collect();
+            match v.map_err(|e| e.to_string())?.as_slice() {
+                [r, g, b] => Ok(Some(RGB(*r, *g, *b))),
+                _ => Err(format!("bad rgb {s}")),
+            }
+        }
+        _ => Err(format!("bad colour {s}")),
+    }
+}
+
+pub fn enc_style(s: &ansi_term::Style) -> String {
+    let f = |b: bool| if b { '1' } else { '0' };
+    let flags: String = [
+        s.is_bold,
+        s.is_dimmed,
+        s.is_italic,
+        s.is_underline,
+        s.is_blink,
+        s.is_reverse,
+        s.is_hidden,
+        s.is_strikethrough,
+    ]
+    .iter()
+    .map(|b| f(*b))
+    .collect();
+    format!("{flags},{},{}", enc_colour(s.foreground), enc_colour(s.background))
+}
+
+pub fn dec_style(s: &str) -> Result<ansi_term::Style, String> {
+    let parts: Vec<&str> = s.split(',').collect();
+    if parts.len() != 3 || parts[0].len() != 8 {
+        return Err(format!("bad style {s}"));
+    }
+    let b: Vec<bool> = parts[0].chars().map(|c| c == '1').collect();
+    Ok(ansi_term::Style {
+        is_bold: b[0],
+        is_dimmed: b[1],
+        is_italic: b[2],
+        is_underline: b[3],
+        is_blink: b[4],
+        is_reverse: b[5],
+        is_hidden: b[6],
+        is_strikethrough: b[7],
+        foreground: dec_colour(parts[1])?,
+        background: dec_colour(parts[2])?,
+    })
+}
+
+fn delta_style(s: &str) -> Result<Style, String> {
+    Ok(Style {
+        ansi_term_style: dec_style(s)?,
+        ..Style::new()
+    })
+}
+
+pub fn handle(op: &str, args: &[&str]) -> Result<String, String> {
+    if op == "cfg_env" {
+        // ansi.cfg_env <xarg>*: like `cfg`, but with the process environment (DeltaEnv::init())
+        let a = args.iter().map(|f| unhex(f)).collect::<Result<Vec<_>, _>>()?;
+        let cfg = make_env_config(&a);
+        ENV_CONFIG.with(|c| *c.borrow_mut() = Some(cfg));
+        return Ok("ok".into());
+    }
+    match (op, args) {
+        // ansi.elements <s> -> `K:start:end[:style]` per element (K in S C E O T)
+        ("elements", [s]) => {
+            let s = unhex(s)?;
+            let parts: Vec<String> = ansi::verif_elements(&s)
+                .iter()
+                .map(|(k, i, j, st)| match st {
+                    Some(st) => format!("{k}:{i}:{j}:{}", enc_style(st)),
+                    None => format!("{k}:{i}:{j}"),
+                })
+                .collect();
+            Ok(format!("ok {}", parts.join(" ")).trim_end().to_string())
+        }
+        ("strip", [s]) => Ok(format!("ok {}", hex(&ansi::strip_ansi_codes(&unhex(s)?)))),
+        ("measure", [s]) => Ok(format!("ok {}", ansi::measure_text_width(&unhex(s)?))),
+        // ansi.width <s>: UnicodeWidthStr::width of the string as it is
+        ("width", [s]) => Ok(format!("ok {}", unhex(s)?.width())),
+        // ansi.truncate <s> <display_width> <tail> <fill: 1 = Some(' '), 0 = None>
+        ("truncate", [s, w, tail, fill]) => {
+            let fill = if num(fill)? == 1 { Some(' ') } else { None };
+            Ok(format!(
+                "ok {}",
+                hex(&ansi::verif_truncate_str_impl(&unhex(s)?, num(w)?, &unhex(tail)?, fill))
+            ))
+        }
+        ("parse_style_sections", [s]) => {
+            let s = unhex(s)?;
+            let parts: Vec<String> = ansi::parse_style_sections(&s)
+                .iter()
+                .map(|(st, t)| format!("{}:{}", enc_style(st), hex(t)))
+                .collect();
+            Ok(format!("ok {}", parts.join(" ")).trim_end().to_string())
+        }
+        ("first_style", [s]) => Ok(match ansi::parse_first_style(&unhex(s)?) {
+            Some(st) => format!("ok {}", enc_style(&st)),
+            None => "ok none".to_string(),
+        }),
+        ("starts_with_sgr", [s]) => Ok(format!(
+            "ok {}",
+            ansi::string_starts_with_ansi_style_sequence(&unhex(s)?) as u8
+        )),
+        // ansi.sgr_to_style <params text, e.g. "1;38;5;4">: style of `ESC [ params m`
+        ("sgr_to_style", [p]) => {
+            let seq = format!("\x1b[{}m", unhex(p)?);
+            Ok(match ansi::verif_elements(&seq).first() {
+                Some(('S', _, _, Some(st))) => format!("ok {}", enc_style(st)),
+                _ => "ok none".to_string(),
+            })
+        }
+        // ansi.has_style_other_than <s> <style>* : style::line_has_style_other_than
+        ("has_style_other_than", [s, styles @ ..]) => {
+            let styles: Vec<Style> = styles.iter().map(|x| delta_style(x)).collect::<Result<_, _>>()?;
+            Ok(format!("ok {}", style::line_has_style_other_than(&unhex(s)?, &styles) as u8))
+        }
+        ("style_equality", [a, b]) => Ok(format!(
+            "ok {}",
+            style::ansi_term_style_equality(dec_style(a)?, dec_style(b)?) as u8
+        )),
+        // ansi.paint <style> <text>: ansi_term rendering of one styled string
+        ("paint", [st, t]) => Ok(format!("ok {}", hex(&dec_style(st)?.paint(unhex(t)?).to_string()))),
+        ("slice", [s, start]) => Ok(format!(
+            "ok {}",
+            hex(&ansi::ansi_preserving_slice(&unhex(s)?, num(start)?))
+        )),
+        ("index", [s, i]) => Ok(match ansi::ansi_preserving_index(&unhex(s)?, num(i)?) {
+            Some(k) => format!("ok {k}"),
+            None => "ok none".to_string(),
+        }),
+        // ---------------------------------------------------------------- C19
+        // ansi.format_file_link <absolute path> <line number | -> <text>   (uses current cfg)
+        ("format_file_link", [path, line, text]) => {
+            let line = if *line == "-" { None } else { Some(num(line)?) };
+            Ok(format!(
+                "ok {}",
+                hex(&crate::features::hyperlinks::format_osc8_file_hyperlink(
+                    std::path::PathBuf::from(unhex(path)?),
+                    line,
+                    &unhex(text)?,
+                    config()
+                ))
+            ))
+        }
+        // ansi.format_commit_line <line>   (uses current cfg)
+        ("format_commit_line", [line]) => Ok(format!(
+            "ok {}",
+            hex(&crate::features::hyperlinks::format_commit_line_with_osc8_commit_hyperlink(
+                &unhex(line)?,
+                config()
+            ))
+        )),
+        // ansi.commit_hash_spans <line>: the matches of COMMIT_HASH_REGEX (the model's parameter)
+        ("commit_hash_spans", [line]) => {
+            let line = unhex(line)?;
+            let spans: Vec<String> = crate::features::hyperlinks::verif_commit_hash_spans(&line)
+                .iter()
+                .map(|(a, b)| format!("{a}:{b}"))
+                .collect();
+            Ok(format!("ok {}", spans.join(" ")).trim_end().to_string())
+        }
+        // ansi.osc8 <url> <text>
+        ("osc8", [url, text]) => Ok(format!(
+            "ok {}",
+            hex(&crate::features::hyperlinks::verif_format_osc8_hyperlink(&unhex(url)?, &unhex(text)?))
+        )),
+        // ansi.link_env: hostname, cwd of the delta process, cwd of the user's shell, relative_paths
+        ("link_env", []) => {
+            let c = config();
+            let p = |x: &Option<std::path::PathBuf>| match x {
+                Some(p) => hex(&p.to_string_lossy()),
+                None => "-".to_string(),
+            };
+            Ok(format!(
+                "ok {} {} {} {} {}",
+                c.hostname.as_ref().map(|h| hex(h)).unwrap_or_else(|| "-".into()),
+                p(&c.cwd_of_delta_process),
+                p(&c.cwd_of_user_shell_process),
+                c.relative_paths as u8,
+                crate::utils::process::calling_process().paths_in_input_are_relative_to_cwd() as u8
+            ))
+        }
+        // ansi.file_change <minus> <plus> <minus event> <plus event>: the file header text
+        ("file_change", [minus, plus, me, pe]) => {
+            use crate::handlers::diff_header::FileEvent;
+            let ev = |x: &str| match x {
+                "change" => Ok(FileEvent::Change),
+                "copy" => Ok(FileEvent::Copy),
+                "rename" => Ok(FileEvent::Rename),
+                "none" => Ok(FileEvent::NoEvent),
+                _ => Err(format!("bad event {x}")),
+            };
+            Ok(format!(
+                "ok {}",
+                hex(&crate::handlers::diff_header::get_file_change_description_from_file_paths(
+                    &unhex(minus)?,
+                    &unhex(plus)?,
+                    false,
+                    &ev(me)?,
+                    &ev(pe)?,
+                    config()
+                ))
+            ))
+        }
+        // ansi.absolute_path <relative path>   (uses current cfg and the process cwd)
+        ("absolute_path", [p]) => {
+            Ok(match crate::utils::path::absolute_path(&unhex(p)?, config()) {
+                Some(p) => format!("ok {}", hex(&p.to_string_lossy())),
+                None => "ok none".to_string(),
+            })
+        }
+        // ansi.format_line_number <n | -> <width> <plus_file | -> <hyperlinks 0/1 is in cfg>
+        ("format_line_number", [n, width, file]) => {
+            let n = if *n == "-" { None } else { Some(num(n)?) };
+            let file = if *file == "-" { None } else { Some(unhex(file)?) };
+            Ok(format!(
+                "ok {}",
+                hex(&crate::features::line_numbers::verif_ansi_format_line_number(
+                    n,
+                    num(width)?,
+                    file.as_deref(),
+                    config()
+                ))
+            ))
+        }
+        // ansi.file_path_with_line_number <n | -> <file> <pad 0/1> <sep> <term 0/1> <fstyle | -> <nstyle | ->
+        ("file_path_with_line_number", [n, file, pad, sep, term, fstyle, nstyle]) => {
+            let n = if *n == "-" { None } else { Some(num(n)?) };
+            let st = |x: &str| -> Result<Option<Style>, String> {
+                if x == "-" { Ok(None) } else { Ok(Some(delta_style(x)?)) }
+            };
+            Ok(format!(
+                "ok {}",
+                hex(&crate::paint::paint_file_path_with_line_number(
+                    n,
+                    &unhex(file)?,
+                    num(pad)? == 1,
+                    &unhex(sep)?,
+                    num(term)? == 1,
+                    st(fstyle)?,
+                    st(nstyle)?,
+                    config()
+                ))
+            ))
+        }
+        // ansi.diff_stat_line <line> <cwd relative to repo root>
+        ("diff_stat_line", [line, cwd]) => {
+            Ok(match crate::handlers::diff_stat::relativize_path_in_diff_stat_line(
+                &unhex(line)?,
+                &unhex(cwd)?,
+                config(),
+            ) {
+                Some(s) => format!("ok {}", hex(&s)),
+                None => "ok none".to_string(),
+            })
+        }
+        _ => Err(format!("unknown op or arity: ansi.{op}")),
+    }
 }
